@@ -70,14 +70,12 @@ class Ctx:
         for vid, nm in fn._names.items():
             by_name.setdefault(nm, set()).add(vid)
 
-        def kills_for(pattern):
+        def kills_for(p):
             # operands of the predicate: every local/parameter named in the pattern; a redefinition
             # of one of them after the test invalidates the established outcome
-            pats = [p for p, w in pattern] if isinstance(pattern, list) else [pattern]
             ids = set()
-            for p in pats:
-                for tok in _re.findall(r"[A-Za-z_][A-Za-z_0-9]*", p if isinstance(p, str) else ""):
-                    ids |= by_name.get(tok, set())
+            for tok in _re.findall(r"[A-Za-z_][A-Za-z_0-9]*", p if isinstance(p, str) else ""):
+                ids |= by_name.get(tok, set())
             for nm in kill_names:
                 ids |= by_name.get(nm, set())
             return ids
@@ -85,13 +83,20 @@ class Ctx:
             if len(spec) == 2:
                 label, pattern = spec
                 want = "one of " + "; ".join("%s=%s" % (p, w) for p, w in pattern)
-                mon = GateMonitor(accept_pts, pattern, None, kills_for(pattern), accept_edge=accept_edge)
+                # an alternative (pattern, "stmt") is established by *executing* a matching statement
+                stmt_pts = set()
+                for p, w in pattern:
+                    if w == "stmt":
+                        stmt_pts |= {pt for pt, n in find(fn, p)}
+                pattern = [(p, w) for p, w in pattern if w != "stmt"]
+                mon = GateMonitor(accept_pts, pattern, None, (), accept_edge=accept_edge, kill_fn=kills_for,
+                                  est_elem=(lambda pt, e, S=stmt_pts: pt in S) if stmt_pts else None)
             else:
                 label, pattern, want = spec
-                mon = GateMonitor(accept_pts, pattern, want, kills_for(pattern), accept_edge=accept_edge)
+                mon = GateMonitor(accept_pts, pattern, want, (), accept_edge=accept_edge, kill_fn=kills_for)
             mon.label = label
             s = Search(fn, mon)
-            v = s.run(False)
+            v = s.run(0)
             key = "%s:%s" % (fn.name, label)
             if v is None:
                 self.ok(rule, key, "every path to %s (%d point(s)) in %s passes `%s` = %s; %d product states" % (
@@ -127,7 +132,7 @@ class Ctx:
         mon = GateMonitor((), list(edge_alts) if edge_alts else None, None, (), est_elem=lambda pt, e: pt in pts, check_exit=True)
         mon.label = what
         s = Search(fn, mon)
-        v = s.run(False)
+        v = s.run(0)
         if v is None:
             self.ok(rule, key, what + " on every path of %s (%d statement site(s), %d states)" % (fn.name, len(pts), s.states),
                     sample={"function": fn.name, "sites": [fn.loc(p) for p in sorted(pts)][:4], "rule": what})
